@@ -80,6 +80,8 @@ def run_history(calls, scratch, tag):
 
 
 def run_fresh(pickled_b64, scratch, tag):
+    if pickled_b64 is None:
+        return None
     inp = os.path.join(scratch, tag + ".in.pkl")
     outp = os.path.join(scratch, tag + ".out.json")
     with open(inp, "wb") as fh:
@@ -93,6 +95,46 @@ def run_fresh(pickled_b64, scratch, tag):
     os.remove(inp)
     os.remove(outp)
     return r
+
+
+def slot_refs(c):
+    return [v["$slot"] for v in c.values() if isinstance(v, dict) and len(v) == 1 and "$slot" in v]
+
+
+def closure(calls, k):
+    """The calls before k that BUILD the objects call k is handed (parsed schemas, caller-supplied named_schemas
+    dictionaries and everything parsed into them, opened readers), in order, followed by call k itself."""
+    need = set(slot_refs(calls[k]))
+    if not need:
+        return None
+    changed = True
+    while changed:
+        changed = False
+        for j in range(k):
+            c = calls[j]
+            ns = c.get("named_schemas")
+            touches = c.get("$out") in need or (isinstance(ns, dict) and ns.get("$slot") in need)
+            if touches:
+                for sl in slot_refs(c) + ([c["$out"]] if "$out" in c else []):
+                    if sl not in need:
+                        need.add(sl)
+                        changed = True
+    idx = [j for j in range(k) if calls[j].get("$out") in need or
+           (isinstance(calls[j].get("named_schemas"), dict) and calls[j]["named_schemas"].get("$slot") in need)]
+    return [calls[j] for j in idx] + [calls[k]]
+
+
+def run_rebuilt(calls, k, scratch, tag):
+    """call k in a fresh interpreter that first rebuilds the argument objects by the calls that built them"""
+    sub = closure(calls, k)
+    if sub is None:
+        return None
+    try:
+        recs = run_history(sub, scratch, tag)
+    except Exception as e:
+        return {"st": "worker-crashed", "val": str(e)[-400:], "extra": None}
+    last = [r for r in recs if r["i"] == len(sub) - 1]
+    return last[0]["res"] if last else {"st": "worker-crashed", "val": "no record", "extra": None}
 
 
 def describe(call):
@@ -168,10 +210,16 @@ def _run(ctx, nh, scratch):
         hrecs = list(ex.map(lambda a: run_history(a[1].calls, scratch, "h%d" % a[0]), enumerate(hists)))
 
     # ---- 2. every call first thing in a FRESH interpreter
-    jobs = [(h, r["i"], r["pickled"]) for h, recs in enumerate(hrecs) for r in recs]
+    jobs = [(h, r["i"], r["pickled"]) for h, recs in enumerate(hrecs) for r in recs]      # pickled None: live objects
     with ThreadPoolExecutor(max_workers=16) as ex:
         fresh = list(ex.map(lambda j: run_fresh(j[2], scratch, "f%d_%d" % (j[0], j[1])), jobs))
     fresh = {(h, i): f for (h, i, _), f in zip(jobs, fresh)}
+    # ---- 2b. every call that is handed objects built by earlier calls: again in a fresh interpreter that only
+    #          rebuilds those objects (what did the calls in between do to them?)
+    jobs2 = [(h, r["i"]) for h, recs in enumerate(hrecs) for r in recs if slot_refs(hists[h].calls[r["i"]])]
+    with ThreadPoolExecutor(max_workers=16) as ex:
+        reb = list(ex.map(lambda j: run_rebuilt(hists[j[0]].calls, j[1], scratch, "b%d_%d" % j), jobs2))
+    rebuilt = dict(zip(jobs2, reb))
 
     # ---- 3. the model, call by call from the observed state
     hist_cells, hist_abs = [], []
@@ -186,10 +234,11 @@ def _run(ctx, nh, scratch):
 
     # ---- 4. compare
     stats = dict(calls=0, raised=0, ok=0, unpredicted=0, decimal_reads=0, rounded_reads=0, by_api={}, o2=0,
-                 prec_changes=0, raised_where_generator_expected_ok=0, raised_by={})
+                 prec_changes=0, raised_where_generator_expected_ok=0, raised_by={}, rebuilt_runs=0)
     minimised = set()
     for h, (hg, recs) in enumerate(zip(hists, hrecs)):
         leaked = None              # first cell outside the model's frame that an earlier call of this history changed
+        modified = None            # first argument (other than the exempt ones) that an earlier call of this history modified
         for r in recs:
             k, api = r["i"], r["api"]
             call = hg.calls[k]
@@ -203,7 +252,7 @@ def _run(ctx, nh, scratch):
                 stats["raised_by"][kx] = stats["raised_by"].get(kx, 0) + 1
             if hg.meta[k].get("expect") == "ok" and not nontrivial:
                 stats["raised_where_generator_expected_ok"] += 1
-            case_key = (h, k, r["pickled"][:64], res["val"][:64] if isinstance(res["val"], str) else None)
+            case_key = (h, k, (r["pickled"] or "")[:64], res["val"][:64] if isinstance(res["val"], str) else None)
 
             def case(extra=None):
                 d = dict(history_index=h, call_index=k, api=api, call=describe(call),
@@ -215,7 +264,24 @@ def _run(ctx, nh, scratch):
 
             # corr:fresh-vs-history  (the property's predicate itself)
             ctx.count("corr:fresh-vs-history", case_key, nontrivial=nontrivial)
-            if fr != res:
+            rb = rebuilt.get((h, k))
+            if rb is not None:
+                stats["rebuilt_runs"] += 1
+                if rb != res:
+                    sig = "C17:result-differs-from-fresh-interpreter-with-rebuilt-arguments:%s" % (
+                        ("state-leak-through:" + leaked) if leaked else
+                        ("argument-modified-by-earlier-call:" + modified) if modified else api)
+                    extra = dict(comparison="fresh interpreter running only the calls that build this call's argument objects, then this call",
+                                 cell_changed_earlier_in_this_history=leaked, argument_modified_earlier_in_this_history=modified)
+                    if sig not in minimised:
+                        minimised.add(sig)
+                        small = minimise(hg.calls[:k + 1], scratch, rebuilt=True)
+                        extra["minimised_history"] = [describe(c) for c in small]
+                        extra["history_pickled"] = base64.b64encode(pickle.dumps(small, protocol=4)).decode()
+                        extra["call_index"] = len(small) - 1
+                    ctx.violation("corr:fresh-vs-history", case(extra), impl=dict(after_history=res),
+                                  model=dict(fresh_interpreter_rebuilt_arguments=rb), signature=sig, found_input=True)
+            if fr is not None and fr != res:
                 what = "exception-vs-value" if fr.get("st") != res.get("st") else (
                     "side-output" if fr.get("val") == res.get("val") else ("exception-class" if res["st"] == "raised" else "value"))
                 sig = ("C17:state-leak-through:%s:result-differs-from-fresh-interpreter" % leaked) if leaked else (
@@ -235,6 +301,7 @@ def _run(ctx, nh, scratch):
             for name, before, after in r["args_changed"]:
                 ctx.violation("corr:args-intact", case(dict(argument=name)), impl=dict(after_call=after), model=dict(before_call=before),
                               signature="C17:argument-modified:%s" % name, found_input=True)
+                modified = modified or "%s(%s)" % (api, name)
             if r["args_observed"]:
                 stats["o2"] += 1
 
@@ -290,7 +357,7 @@ def _run(ctx, nh, scratch):
                         decimal_context=r["ctx"], model=hg.abstract[r["i"]]))
 
 
-def differs_at_end(calls, scratch, tag):
+def differs_at_end(calls, scratch, tag, rebuilt=False):
     """does the LAST call of this history give a result different from its fresh-interpreter run?"""
     try:
         recs = run_history(calls, scratch, tag)
@@ -299,17 +366,21 @@ def differs_at_end(calls, scratch, tag):
     last = [r for r in recs if r["i"] == len(calls) - 1]
     if not last:
         return False
-    return run_fresh(last[0]["pickled"], scratch, tag + "f") != last[0]["res"]
+    if rebuilt:
+        rb = run_rebuilt(calls, len(calls) - 1, scratch, tag + "b")
+        return rb is not None and rb != last[0]["res"]
+    fr = run_fresh(last[0]["pickled"], scratch, tag + "f")
+    return fr is not None and fr != last[0]["res"]
 
 
-def minimise(calls, scratch, budget=45):
+def minimise(calls, scratch, budget=45, rebuilt=False):
     """greedy removal of earlier calls while the last call still differs from its fresh run"""
     cur = list(calls)
     j = len(cur) - 2
     while j >= 0 and budget > 0:
         cand = cur[:j] + cur[j + 1:]
         budget -= 1
-        if differs_at_end(cand, scratch, "min"):
+        if differs_at_end(cand, scratch, "min", rebuilt):
             cur = cand
         j -= 1
     return cur
@@ -327,11 +398,13 @@ def replay(ctx, rep):
         recs = run_history(calls, scratch, "rp")
         r = [x for x in recs if x["i"] == c["call_index"]][0]
         fr = run_fresh(r["pickled"], scratch, "rpf")
-        print("call:", json.dumps(c["call"])[:600])
+        rb = run_rebuilt(calls, c["call_index"], scratch, "rpb")
+        print("call:", json.dumps(describe(calls[c["call_index"]]))[:600])
         print("after history:", json.dumps(r["res"])[:500])
-        print("fresh interpreter:", json.dumps(fr)[:500])
-        print("arguments modified:", r["args_changed"], " global cells changed:", [x[0] for x in r["globals_changed"]])
-        ok = fr == r["res"] and not r["args_changed"]
+        print("fresh interpreter (same argument values):", json.dumps(fr)[:500])
+        print("fresh interpreter (arguments rebuilt by the calls that built them):", json.dumps(rb)[:500])
+        print("arguments modified:", [x[0] for x in r["args_changed"]], " global cells changed:", [x[0] for x in r["globals_changed"]])
+        ok = (fr is None or fr == r["res"]) and (rb is None or rb == r["res"]) and not r["args_changed"]
         variant, _ = source_variant()
         extra = [x for x in r["globals_changed"] if not (x[0] in MODEL_CELLS and variant == "Current")]
         if rep.get("name") == "corr:globals":
